@@ -86,12 +86,25 @@ class Ctx:
         th = [threading.Thread(target=worker, args=(c,)) for c in chunks if c]
         for t in th: t.start()
         for t in th: t.join()
+        # A wall-clock timeout on a loaded machine is not yet a verdict: every timed-out case is run again alone, with a
+        # CPU-time limit of the same budget (SIGXCPU = the case really needs more than the budget) and a wall-clock
+        # limit six times as long (a case that blocks without using the CPU still ends as a timeout).
+        slow = [i for i in range(n) if results[i] and results[i][0] == 'timeout']
+        def confirm(part):
+            for i in part:
+                first = results[i]; results[i] = None
+                self._run_worker(exe, cases, [i], 0, results, per_case_timeout * 6, mem_mb, cpu=int(per_case_timeout + 0.999))
+                if results[i] is None: results[i] = first
+        th = [threading.Thread(target=confirm, args=(slow[k::8],)) for k in range(8) if slow[k::8]]
+        for t in th: t.start()
+        for t in th: t.join()
         return results
 
-    def _run_worker(self, exe, cases, idxs, pos, results, tmo, mem_mb):
+    def _run_worker(self, exe, cases, idxs, pos, results, tmo, mem_mb, cpu=None):
         def limits():
             resource.setrlimit(resource.RLIMIT_AS, (mem_mb << 20, mem_mb << 20))
             resource.setrlimit(resource.RLIMIT_CORE, (0, 0))
+            if cpu: resource.setrlimit(resource.RLIMIT_CPU, (cpu, cpu + 1))
         p = subprocess.Popen([exe], stdin=subprocess.PIPE, stdout=subprocess.PIPE, stderr=subprocess.PIPE,
                              preexec_fn=limits, text=True, errors='replace', bufsize=1)
         errbuf = []
@@ -138,7 +151,7 @@ class Ctx:
         if current is None:
             current = todo[done]
         err = (errbuf[0] if errbuf else '') or ''
-        if timed_out[0]: cls = 'timeout'
+        if timed_out[0] or p.returncode in (-signal.SIGXCPU, -signal.SIGKILL) and cpu: cls = 'timeout'
         elif 'memory allocation' in err or 'out of memory' in err.lower() or 'capacity overflow' in err: cls = 'oom'
         elif 'stack overflow' in err: cls = 'stackoverflow'
         elif p.returncode == -signal.SIGABRT: cls = 'abort'
